@@ -165,7 +165,8 @@ namespace
         for(unsigned used = 0; used < (1u << sh.m); ++used)
         {
           if((used & need) != need) continue;
-          if(bits == 0 && used != 0) continue; // the array constructor needs at least one entry; entry-free = CSCR(m,n)
+          // bits == 0, used != 0: used rows without any entry, only constructible with the allocating constructor CSCR(m,n,nnz,used_rows)
+          if(bits == 0 && used != 0 && (sh.m == 0 || sh.n == 0)) continue; // that constructor XASSERTs non-zero dimensions
           for(const Variant& var : vars)
             for(const ApplyCase& op0 : ops)
             {
@@ -175,7 +176,21 @@ namespace
               const DenseRef D = dense_from_bits(sh.m, sh.n, bits, var.alphabet);
               c.desc([&]{ return "cscr<" + tp<DT, IT>() + "> " + D.str() + " used_rows_mask=" + std::to_string(used) + " " + op.str(); });
               M A0;
-              if(bits == 0) A0 = M(Index(sh.m), Index(sh.n));
+              const Index nur0 = [&]{ Index q = 0; for(int i = 0; i < sh.m; ++i) q += (used >> i) & 1u; return q; }();
+              if(bits == 0 && used == 0) A0 = M(Index(sh.m), Index(sh.n));
+              else if(bits == 0 || var.scenario == S_HIST)
+              {
+                // configuration through the allocating constructor + raw arrays (instead of the array constructor)
+                A0 = M(Index(sh.m), Index(sh.n), Index(D.nnz()), nur0);
+                Index k = 0, u = 0; A0.row_ptr()[0] = IT(0);
+                for(int i = 0; i < sh.m; ++i)
+                {
+                  if(!((used >> i) & 1u)) continue;
+                  for(int j = 0; j < sh.n; ++j) if(D.has(i, j)) { A0.val()[k] = DT(D.at(i, j)); A0.col_ind()[k] = IT(j); ++k; }
+                  A0.row_numbers()[u] = IT(i); A0.row_ptr()[++u] = IT(k);
+                }
+                c.count("cscr_allocating_constructor_cases");
+              }
               else
               {
                 const Index nnz = Index(D.nnz()); Index nur = 0; for(int i = 0; i < sh.m; ++i) nur += (used >> i) & 1u;
@@ -194,11 +209,11 @@ namespace
               if(dk) c.count("derived_object_cases");
               auto tie = [&]{
                 bool same = (A.rows() == Index(sh.m) && A.columns() == Index(sh.n) && A.used_elements() == Index(D.nnz()));
-                if(bits != 0) for(int i = 0; i < sh.m && same; ++i) for(int j = 0; j < sh.n; ++j) if(!(A(Index(i), Index(j)) == DT(D.at(i, j)))) same = false;
-                c.check(same, "cscr.operator() != generator", "container does not represent the generated matrix"); };
+                if(bits != 0 || used != 0) for(int i = 0; i < sh.m && same; ++i) for(int j = 0; j < sh.n; ++j) if(!(A(Index(i), Index(j)) == DT(D.at(i, j)))) same = false;
+                c.check(same && A.used_rows() == nur0, "cscr.operator() != generator", "container does not represent the generated matrix"); };
               if(var.scenario != S_BASE) tie();
               V r(Index(op.transposed ? sh.n : sh.m)), y(Index(op.transposed ? sh.n : sh.m)), x(Index(op.transposed ? sh.m : sh.n));
-              const std::string kind = std::string("cscr") + (bits == 0 ? "[entry-free]" : (used != need ? "[empty used rows]" : ""));
+              const std::string kind = std::string("cscr") + (bits == 0 ? (used ? "[used rows without entries]" : "[entry-free]") : (used != need ? "[empty used rows]" : ""));
               if(var.scenario == S_HIST || var.scenario == S_COMBO)
               {
                 V t1{Index(op.transposed ? sh.m : sh.n), DT(3)}, t2{Index(op.transposed ? sh.n : sh.m), DT(5)};
@@ -233,6 +248,7 @@ int main(int argc, char** argv)
     "CSR with DenseVectorBlocked<2>,<3> and BWrappedCSR<2>: shapes {1..3}^2, 6 variants; alpha in {0,1,-1,1/2,2,0.3,1e-20,-1e-20,1e-300}";
   spec.bounds_thorough = "quick + shapes 1x4,4x1,2x4,4x2,3x4,4x3 (all patterns, CSR and CSCR, 5 variants: 4 alphabets + combination scenario) + CSR 4x4 (65536 patterns, exact alphabet, base + combination, (double,u64),(float,u32))";
   spec.assumptions = {
+    "coverage audit: out of scope of C01 (other properties): conversions, layout/graph constructors, transpose, permute, set_line/get_length_of_line (C02), matrix algebra (C03), file I/O and checkpoints (C05), scatter/gather-axpy classes (C16), name()/bytes()/statistics, MKL/CUDA back ends", 
     "oracle: dense long double product written in the harness; operator()(i,j) of every generated container is compared with the generator (after the operation in the base scenario: the apply is the first access)",
     "exact / all-negative / extreme alphabets: position coded dyadic values (extreme: matrix * 2^-1030 (denormal), x * 2^+1030; float 2^-+130), result compared with ==; rounding alphabet / non-dyadic alpha: |err| <= 8(len+2) eps (|A||x| max(1,|alpha|) + |y|)",
     "result vector r is pre-filled with NaN (r!=y cases), so a kernel reading r is detected; sub-range views are surrounded by guard entries that must stay untouched",
